@@ -83,22 +83,43 @@ def split34(n):
     return None
 
 
+def flow_v4_component(rng, room):
+    """one well-formed IPv4 FlowSpec component of at most `room` octets (None if nothing fits): a prefix component of any length
+    0..32, or a numeric / bitmask component whose operators use every operand width (1, 2, 4, 8 octets) and flag bit"""
+    for _ in range(8):
+        if rng.chance(1, 4):
+            plen = rng.choice([0, 1, 8, 9, 16, 24, 25, 31, 32])
+            nb = (plen + 7) // 8
+            addr = bytearray(rng.below(256) for _ in range(nb))
+            if plen % 8 and nb:
+                addr[-1] &= (0xff << (8 - plen % 8)) & 0xff
+            c = bytes([rng.choice([1, 2]), plen]) + bytes(addr)
+        else:
+            nops = 1 + rng.below(3)
+            c = bytes([3 + rng.below(10)])
+            for k in range(nops):
+                lb = rng.choice([0, 0, 1, 2, 3])
+                op = (lb << 4) | rng.below(16) | (0x40 if rng.chance(1, 3) else 0) | (0x80 if k == nops - 1 else 0)
+                c += bytes([op]) + bytes(rng.below(256) for _ in range(1 << lb))
+        if len(c) <= room:
+            return c
+    return None
+
+
 def flow_v4_body(n, rng):
     """a valid IPv4 FlowSpec component list of exactly n octets (n = 0, 3, 4 or >= 6)"""
     while split34(n) is None:
         n -= 1
     out = b''
-    if n >= 8 and split34(n - 5) is not None and rng.chance(1, 2):
-        out += bytes([1, 24, 10, rng.below(256), rng.below(256)])           # destination prefix /24: 5 octets
+    # rich components first (every prefix length, every operand width), then 3- and 4-octet components to land on n exactly
+    while n - len(out) >= 12 and rng.chance(3, 4):
+        c = flow_v4_component(rng, n - len(out) - 6)
+        if c is None or split34(n - len(out) - len(c)) is None:
+            break
+        out += c
     a, b = split34(n - len(out))
-    parts = [bytes([3 + rng.below(6), 0x81, rng.below(256)]) for _ in range(a)] + \
-            [bytes([4 + rng.below(4), 0x91, rng.below(256), rng.below(256)]) for _ in range(b)]
-    # a few multi-op components: replace two 3-octet ones by one 5-octet component (op, value, op|eol, value)
-    i = 0
-    while i + 1 < len(parts) and rng.chance(1, 3):
-        if len(parts[i]) == 3 and len(parts[i + 1]) == 3 and split34(1) is None:
-            pass
-        i += 1
+    parts = [bytes([3 + rng.below(6), 0x81 | (rng.below(8)), rng.below(256)]) for _ in range(a)] + \
+            [bytes([4 + rng.below(4), 0x91 | (rng.below(8)), rng.below(256), rng.below(256)]) for _ in range(b)]
     for x in parts:
         out += x
     assert len(out) == n, (n, len(out))
